@@ -2,7 +2,7 @@
 """Systematic sensitivity sweep: generated first-order mutants of the library, each run against the checks that
 are anchored in the mutated file (scratch copy under /dev/shm; /repo is never touched).
 
-  tools/mutants.py gen [--per-file N] [--seed S]            -> /dev/shm/mutants/plan.jsonl
+  tools/mutants.py gen [--per-file N] [--seed S] [--files a,b]  -> /dev/shm/mutants/plan.jsonl
   tools/mutants.py run [-j N] [--only FILE-SUBSTRING]       -> /dev/shm/mutants/results.jsonl (resumable)
   tools/mutants.py tests [-j N]                             -> for survivors only: does the repo's test suite kill it?
   tools/mutants.py report                                   -> summary + survivors
@@ -202,11 +202,13 @@ def mutants_of(rel, src):
     return good
 
 
-def gen(per_file, seed):
+def gen(per_file, seed, files=None):
     os.makedirs(OUT, exist_ok=True)
     rng = random.Random(seed)
     plan = []
     for rel in FILE_CHECKS:
+        if files and not any(x in rel for x in files):
+            continue
         src = open(os.path.join("/repo", rel)).read()
         ms = mutants_of(rel, src)
         rng.shuffle(ms)
@@ -332,7 +334,7 @@ if __name__ == "__main__":
     cmd = a[0]
     opt = {a[i]: a[i + 1] for i in range(1, len(a) - 1, 2)}
     if cmd == "gen":
-        gen(int(opt.get("--per-file", 30)), int(opt.get("--seed", 1)))
+        gen(int(opt.get("--per-file", 30)), int(opt.get("--seed", 1)), opt["--files"].split(",") if "--files" in opt else None)
     elif cmd == "run":
         run(int(opt.get("-j", 2)), opt.get("--only"))
     elif cmd == "tests":
